@@ -1254,15 +1254,25 @@ package gmars
 //@   requires l != nil
 //@   modifies nothing
 //@   ensures result.1 == nil ==> len(result.0) >= 1
-//@ trusted newBufTokenReader
+// (assumed: a buffered reader over a token list is a finite stream that has not delivered its terminal token yet)
+//@ func newBufTokenReader
+//@   panics [C05]
 //@   modifies nothing
 //@   ensures fresh(result) && result.tokens == tokens
+//@   assumes as(result, tokenReader).left >= 0 && !as(result, tokenReader).ended
 // the symbol table of a token list (C08): the FOR expander must be handed the table scanned from the very
 // token list it expands -- a later pass sees EQU lines an earlier pass could not reach
 //@ uf symsOf(toks Slice) int
-//@ trusted ScanInput
-//@   modifies nothing
-//@   ensures result.2 == nil ==> result.0 == symsOf(as(lex, bufTokenReader).tokens)
+//@ func newSymbolScanner
+//@   panics [C05]
+//@   requires lex != nil && lex.left >= 0 && !lex.ended
+//@   modifies ghost lex.*
+//@   ensures fresh(result) && scannerOK(result) && result.lex == lex && fresh(result.symbols) && arr(result.labelBuf) == 0 && arr(result.valBuf) == 0
+//@ func ScanInput
+//@   panics [C05][C08]
+//@   requires lex != nil && lex.left >= 0 && !lex.ended
+//@   modifies ghost lex.*
+//@   assumes result.2 == nil ==> result.0 == symsOf(as(lex, bufTokenReader).tokens)
 //@ trusted newForExpander
 //@   modifies nothing
 //@   ensures fresh(result)
@@ -1274,9 +1284,10 @@ package gmars
 //@   requires [C08] symbols == symsOf(as(lex, bufTokenReader).tokens)
 //@   modifies nothing
 //@   ensures [C05] result.1 != nil ==> len(result.0) == 0
-// (assumed: a parser over a fresh token reader starts in a state satisfying its invariant)
-//@ trusted newParser
-//@   modifies nothing
+//@ func newParser
+//@   panics [C05]
+//@   requires lex != nil && lex.left >= 0 && !lex.ended
+//@   modifies ghost lex.*
 //@   ensures fresh(result) && parserOK(result) && result.lex == lex && fresh(result.symbols) && fresh(result.references)
 //@   ensures arr(result.lines) == 0 && arr(result.currentLine.labels) == 0 && arr(result.currentLine.a) == 0 && arr(result.currentLine.b) == 0
 //@ trusted (*parser).validateSymbols
@@ -1956,12 +1967,16 @@ package gmars
 // the simulator behind the interface is this package's reportSim: an index below its warrior count names a warrior
 // (found by running the contracts against the real code: without the bound, a spawn report with a bad index is an
 // admitted input on which Report dereferences nil)
+//@ uf warriorOf(sim int, wi int) int
 //@ extern iface:ReportingSimulator.GetWarrior
 //@   modifies nothing
 //@   ensures 0 <= wi && wi < as(self, reportSim).warriorCount ==> result != nil
+//@   ensures result == warriorOf(self, wi)
+// (a warrior's length is a function of the warrior and bounded like any slice length)
+//@ uf wlen(w int) int
 //@ extern iface:Warrior.Length
 //@   modifies nothing
-//@   ensures result >= 0
+//@   ensures result >= 0 && result <= 72057594037927936 && result == wlen(self)
 
 //@ pure recInv(r *StateRecorder) = r != nil && r.sim != nil && r.coresize >= 1 && len(r.color) == r.coresize && len(r.state) == r.coresize
 //@      && arr(r.color) != nil && arr(r.state) != nil
@@ -2005,5 +2020,8 @@ package gmars
 //@   ensures [C15] report.Type == WarriorTaskTerminate || report.Type == WarriorTaskPop || report.Type == WarriorWrite || report.Type == WarriorIncrement || report.Type == WarriorDecrement
 //@      || (report.Type == WarriorRead && r.recordReads) ==> r.state[report.Address] == kindOf(report.Type) && r.color[report.Address] == report.WarriorIndex && recSameExcept(r, report.Address)
 //@   ensures [C15] report.Type == CycleStart || report.Type == CycleEnd || report.Type == WarriorTaskPush || report.Type == WarriorTerminate || (report.Type == WarriorRead && !r.recordReads) ==> recSameExcept(r, 0 - 1)
+// a spawn colours the warrior's cells, wrapping around the end of the core
+//@   ensures [C15] report.Type == WarriorSpawn ==> (forall j :: 0 <= j && j < wlen(warriorOf(r.sim, report.WarriorIndex)) ==> r.color[slot(report.Address, j, r.coresize)] == report.WarriorIndex && r.state[slot(report.Address, j, r.coresize)] == CoreWritten)
 //@   loop 1
-//@     invariant recInv(r) && i >= report.Address
+//@     invariant recInv(r) && i >= report.Address && (i <= report.Address + wlen(w) || i == report.Address)
+//@     invariant [C15] forall j :: 0 <= j && j < i - report.Address ==> r.color[slot(report.Address, j, r.coresize)] == report.WarriorIndex && r.state[slot(report.Address, j, r.coresize)] == CoreWritten
